@@ -282,12 +282,16 @@ def gen_cases(ctx: Ctx, family: str, modes_every: int = 0) -> list:
         stacks = stacks_for(env0, ctx, rng)
         if family == "mujoco" and not ctx.thorough:
             stacks = [[("TimeLimit", 3)]]              # MJX steps compile in 15-25 s per (class, stack): one stack, all eleven classes
+        eager_done = False
         for stack in stacks:
             for mode in ((["sample", "alternate"] if family == "mujoco" else ["sample", "low", "alternate"]) if not ctx.thorough
                          else ["sample", "sample", "low", "high", "alternate", "hold"]):
                 steps = ctx.pick(24, 96) if family == "classic" else ctx.pick(6, 24)
+                # an un-jitted MJX step takes minutes: one eager / jit / vmap comparison per MuJoCo class, not one per rollout
+                me = modes_every if (family == "classic" or not eager_done) else 0
+                eager_done |= bool(me) and mode == "sample"
                 cases.append(dict(family=family, env=name, kw=kw, stack=stack, mode=mode, steps=steps, seed=rng.randrange(2 ** 31),
-                                  modes_every=modes_every))
+                                  modes_every=me))
     return cases
 
 
